@@ -123,6 +123,9 @@ pub fn check(start: Start, b: &[u8], ctx: &mut Ctx) -> Result<(), Failure> {
                     input_json(start, b),
                 ));
             }
+            if let Some(m) = exts_variant_mismatch(e, &r) {
+                return ctx.fail(Failure::new(format!("C03|{}|wrong-fault-class|exts-variant-of-the-other-ip-version", entry), "the reported failure is one that is present in the bytes", m, input_json(start, b)));
+            }
         }
     }
     // non-trivial: >= 3 layers, a length field != true size, or a fault behind the first header
